@@ -113,22 +113,37 @@ func interfRegistryBattery() []string {
 	}
 }
 
+// interfFinalMark separates the declarations of a battery program from its final form (two
+// spaces + the form): the merged quick-tier program prints each final form instead.
+const interfFinalMark = "  (list "
+
+// the battery programs whose last form fails on purpose (error texts)
+var interfEndsInError = map[string]bool{}
+
 func interfGeneralBattery() []string {
+	b := interfGeneralBattery0()
+	for _, p := range b[len(b)-4:] {
+		interfEndsInError[p] = true
+	}
+	return b
+}
+
+func interfGeneralBattery0() []string {
 	return []string{
 		// printers: every kind of value, nested, through str / printf / println
-		`(def h (hash a:1 b:[1 2 3] c:(hash d:"x" e:2.5) f:nil g:true)) (def arr [10 20 [30 40] "s" 1.5 'c' (quote sym)]) (println h) (println arr) (printf "%v|%v\n" h arr) (list (str h) (str arr) (str (list 1 2 (quote (3 4)))) (str 1.0) (str 1e21) (str "q") (str (quote a.b)))`,
+		`(def h (hash a:1 b:[1 2 3] c:(hash d:"x" e:2.5) f:nil g:true)) (def arr [10 20 [30 40] "s" 1.5 'c' (quote sym)]) (println h) (println arr) (printf "%v|%v\n" (str h) (str arr))  (list (str h) (str arr) (str (list 1 2 (quote (3 4)))) (str 1.0) (str 1e21) (str "q") (str (quote a.b)))`,
 		// encoders and decoders
-		`(def h (hash a:1 b:[1 2 3] c:(hash d:"x"))) (list (raw2str (json h)) (str (unjson (json h))) (str (unmsgpack (msgpack h))) (str (unjson (raw "{\"zqa\":1, \"zqb\":{\"zqc\":[1,2]}}"))))`,
+		`(def h (hash a:1 b:[1 2 3] c:(hash d:"x")))  (list (raw2str (json h)) (str (unjson (json h))) (str (unmsgpack (msgpack h))) (str (unjson (raw "{\"zqa\":1, \"zqb\":{\"zqc\":[1,2]}}"))))`,
 		// symbols: numbers of names first seen now, order comparisons, gensym
-		`(def zzq 1) (list (symnum (quote zzq)) (symnum (quote car)) (symnum (str2sym "zqlate")) (< (quote car) (quote cdr)) (gensym) (gensym "p") (str (gensym)))`,
+		`(def zzq 1)  (list (symnum (quote zzq)) (symnum (quote car)) (symnum (str2sym "zqlate")) (< (quote car) (quote cdr)) (gensym) (gensym "p") (str (gensym)))`,
 		// records, the type registry, methods
-		`(def s (snoopy cry:"yo" pack:[1 2] chld:(hellcat speed:5))) (def o (vouter tag:"t" in:(vinner x:7 s:"q"))) (togo o) (list (str s) (raw2str (json s)) (str (_method o Self:)) (defined? (quote snoopy)) (defined? (quote Car)) (defined? (quote zqtype)))`,
+		`(def s (snoopy cry:"yo" pack:[1 2] chld:(hellcat speed:5))) (def o (vouter tag:"t" in:(vinner x:7 s:"q"))) (togo o)  (list (str s) (raw2str (json s)) (str (_method o Self:)) (defined? (quote snoopy)) (defined? (quote Car)) (defined? (quote zqtype)))`,
 		// declarations in THIS interpreter
-		`(struct Car [(field Wheels: int64) (field Name: string)]) (def c (Car Wheels:4 Name:"b")) (package pk { A := 1; b := 2 }) (defmac twice [x] ^(begin ~x ~x)) (defn f [a b] (+ a b)) (list (str c) (str pk) (str f) (macexpand (twice (f 1 2))))`,
+		`(struct Car [(field Wheels: int64) (field Name: string)]) (def c (Car Wheels:4 Name:"b")) (def pk (package "pk" { A := 1; b := 2 })) (defmac twice [x] ^(begin ~x ~x)) (defn f [a b] (+ a b))  (list (str c) (str pk) (str f) (macexpand (twice (f 1 2))))`,
 		// error texts and infix
 		`(def r (list {1 + 2 * 3} {a := 4} {a ** 2})) (println r) (hget (hash a:1) (quote nosuch))`,
 		`(println (str [1 2 (hash k:"v")])) (aget [1 2] 7)`,
-		`(printf "%v %v %v\n" 1 "a" (hash q:[1 (hash w:2)])) (+ 1 "a")`,
+		`(printf "%v %v %v\n" 1 "a" (str (hash q:[1 (hash w:2)]))) (+ 1 "a")`,
 		`(togo (snoopy nosuchfield:1))`,
 	}
 }
@@ -138,7 +153,7 @@ func interfPrograms(g *Gen) []string {
 	ps := []string{
 		`(struct Car [(field Wheels: int64) (field Name: string)]) (def c (Car Wheels:4 Name:"b")) (str c)`,
 		`(struct zqtype [(field X: int64)]) (def c (zqtype X:1)) (json c)`,
-		`(package pk { A := 1; b := 2 }) (package pk2 { B := pk.A })`,
+		`(def pk (package "pk" { A := 1; b := 2 })) (def pk2 (package "pk2" { B := pk.A }))`,
 		`(defmac twice [x] ^(begin ~x ~x)) (defn f [a b] (+ a b)) (defn car [x] 99) (def cdr 1)`,
 		`(infix "+" 99) (infix "zqop" 30) (def snoopy 1) (def hash 2) (def str 3)`,
 		`(def h (zqrecord a:1 b:2)) (str h) (togo (snoopy cry:"x")) (def hellcat 5)`,
@@ -372,7 +387,26 @@ func interfGen(g *Gen) {
 			emit("all-builtins-x-argument-shapes-one-interpreter-per-call", p, calls)
 		}
 	}
-	for _, p := range battery {
+	// quick: the battery programs that end without an error are evaluated as ONE program after
+	// the sweep (a later part still sees what the history did to the process)
+	sweepPs := battery
+	if !g.Thorough() {
+		var merged []string
+		sweepPs = nil
+		for _, p := range interfGeneralBattery() {
+			if interfEndsInError[p] {
+				sweepPs = append(sweepPs, p)
+			} else {
+				// all forms stay at top level (package / struct declarations need that); the
+				// value of each part is printed
+				k := strings.Index(p, interfFinalMark)
+				merged = append(merged, p[:k]+" (println (list "+p[k+len(interfFinalMark):]+")")
+			}
+		}
+		sweepPs = append([]string{strings.Join(merged, " ")}, sweepPs...)
+		sweepPs = append(sweepPs, interfRegistryBattery()...)
+	}
+	for _, p := range sweepPs {
 		for c := 0; c < nchunk; c++ {
 			lo, hi := c*len(sweep)/nchunk, (c+1)*len(sweep)/nchunk
 			emit("all-builtins-x-argument-shapes", p, sweep[lo:hi])
